@@ -5,7 +5,7 @@ cd "$(dirname "${BASH_SOURCE[0]}")/.."
 WT=/tmp/wt/matrix
 git -C /repo worktree add -q --detach "$WT" HEAD 2>/dev/null || git -C "$WT" checkout -q --detach "$(git -C /repo rev-parse HEAD)"
 for d in ${@:-$(ls seeded)}; do
-  P=${d%%-*}
+  P=${d:0:3}
   git -C "$WT" checkout -q -- . ; git -C "$WT" checkout -q --detach "$(git -C /repo rev-parse HEAD)"
   if ! git -C "$WT" apply "$PWD/seeded/$d/patch.diff" 2>/dev/null; then echo "$d does-not-apply"; continue; fi
   out=$(VERIF_REPO="$WT" ./vcheck "$P" --tier quick 2>/dev/null); rc=$?
